@@ -966,7 +966,14 @@ class Interp:
                 raise AnalysisError("return inside with-block is not modelled")
         elif isinstance(st, ast.Assert):
             self.guards.append(("assert", self.ev(st.test, env, ctx), None, st.lineno))
-        elif isinstance(st, (ast.Pass, ast.Import, ast.ImportFrom, ast.Global, ast.Nonlocal)):
+        elif isinstance(st, ast.ImportFrom):
+            base = st.module or ""
+            for a in st.names:
+                env.set(a.asname or a.name, ("ext", self.prog.canonical(f"{base}.{a.name}")))
+        elif isinstance(st, ast.Import):
+            for a in st.names:
+                env.set(a.asname or a.name.split(".")[0], ("ext", a.name if a.asname else a.name.split(".")[0]))
+        elif isinstance(st, (ast.Pass, ast.Global, ast.Nonlocal)):
             pass
         elif isinstance(st, ast.While):
             for n in assigned_names(st.body):
